@@ -192,9 +192,11 @@ func genC18(r *kit.RNG) *C18Scenario {
 		if len(pool) > 0 && r.Chance(0.5) {
 			// a name at, below or beside a listed entry
 			e := strings.TrimSuffix(strings.TrimPrefix(strings.ToLower(kit.Pick(r, pool)), "*."), ".")
-			switch r.Intn(4) {
+			switch r.Intn(5) {
 			case 0:
 				q = e
+			case 4:
+				q = kit.Pick(r, c18Labels) + `\.` + e // one label with a dot in it: ends in the entry's text, is not below it
 			case 1:
 				q = kit.Pick(r, c18Labels) + "." + e
 			case 2:
